@@ -28,7 +28,7 @@ fn cmp(acc: &mut Acc, got: &Envelope, want: &M, route: &str, case_id: impl Fn() 
 pub fn run(ctx: &Ctx) -> i32 {
     let th = ctx.tier.thorough();
     let w = if th { 9 } else { 7 };
-    let mut trees = families::plain(w); trees.extend(families::nsn());
+    let mut trees = families::plain(w); trees.extend(families::nsn()); trees.extend(families::valued());
     let key = bind::key0();
     // (a) every tree x every route
     let mut acc = trees.par_iter().enumerate().with_max_len(1).map(|(ti, m)| {
